@@ -9,6 +9,9 @@
 (*   context     "absent" | "permissive" | "strict"   (caller's SSLContext) *)
 (*   serverName  "absent" | "right" | "wrong"    (server_hostname option)   *)
 (*   tunnel      BOOLEAN                          (through an HTTP proxy)   *)
+(*   sslVersion  "absent" | "tls_client" | "tls"  (ssl_version option)      *)
+(*   prior       BOOLEAN   (an earlier connection with the same object and  *)
+(*               option dict went to another host: must not matter)         *)
 (* and a server certificate is  [trusted (signed by the test CA), name      *)
 (* ("good" = the URL's host | "other")].  The URL host is good.test.        *)
 (***************************************************************************)
@@ -16,7 +19,9 @@ EXTENDS Naturals, Sequences, FiniteSets, TLC
 
 Cfgs == [scheme : {"ws", "wss"}, certReqs : {"absent", "none", "optional", "required"},
          checkHost : {"absent", "true", "false"}, caOpt : {"absent", "file", "path"}, caEnv : {"unset", "file", "dir"},
-         context : {"absent", "permissive", "strict"}, serverName : {"absent", "right", "wrong"}, tunnel : BOOLEAN]
+         context : {"absent", "permissive", "strict"}, serverName : {"absent", "right", "wrong"}, tunnel : BOOLEAN,
+         sslVersion : {"absent", "tls_client", "tls"},    \* ssl_version option: selects the protocol, no check depends on it
+         prior : BOOLEAN]   \* the same object and option dict were used for an earlier wss connection to another host
 Certs == [trusted : BOOLEAN, name : {"good", "other"}]
 
 \* contradictory request (no verification but host name check): outside the space, Python's ssl refuses it
@@ -64,6 +69,9 @@ CheckHostnameFalseKeepsChain ==
   \A c \in Cfgs : c.context = "absent" => VerifyChain([c EXCEPT !.checkHost = "false"]) = VerifyChain(c)
 ServerNameKeepsChain == \A c \in Cfgs, n \in {"absent", "right", "wrong"} : VerifyChain([c EXCEPT !.serverName = n]) = VerifyChain(c)
 TunnelChangesNothing == \A c \in Cfgs, cert \in Certs : Outcome([c EXCEPT !.tunnel = TRUE], cert) = Outcome([c EXCEPT !.tunnel = FALSE], cert)
+ProtocolChoiceChangesNothing ==
+  \A c \in Cfgs, cert \in Certs, v \in {"absent", "tls_client", "tls"}, p \in BOOLEAN :
+     Outcome([c EXCEPT !.sslVersion = v, !.prior = p], cert) = Outcome(c, cert)
 WsNeverWrapped == \A c \in Cfgs, cert \in Certs : c.scheme = "ws" => Outcome(c, cert) = "plain"
 
 (* e: [c, cert, outcome ("established" | "tls_rejected" | "plain" | other), firstByteTls, sni, wsSeenByServer,
